@@ -187,9 +187,9 @@ def r3_check_current_fail_closed(ctx):
         for s in blk.stmts:
             if s.kind == "assign" and s.lhs.is_local and s.lhs.local == 0 and s.rv["k"] == "agg" and s.rv.get("variant") == "Ok":
                 okb.append(blk.idx)
-    if len(okb) != 1:
-        return [violated("C02.R3", "check_current:Ok", b.where(), "expected one Ok(()) construction, found %d" % len(okb))]
-    okb = okb[0]
+    if not okb:
+        return [violated("C02.R3", "check_current:Ok", b.where(), "no Ok(()) construction found in check_current")]
+    okb = set(okb)      # however many places say Ok(()): each of them is behind both comparisons
     tests = []
     for t in b.calls("std::cmp::PartialEq::ne", "std::cmp::PartialEq::eq"):
         be = bool_edges(b, t)
@@ -239,9 +239,9 @@ def r3_check_current_fail_closed(ctx):
         # cutting the "same" edge must make Ok unreachable; the "differ" edge must not reach Ok
         r1 = cfg.reachable(cfg.entry, cut_edges=[e.key() for e in same])
         r2 = cfg.edge_targets_reachable(differ)
-        if okb in r1:
+        if okb & set(r1):
             out.append(violated("C02.R3", key, t.where(), "Ok(()) reachable without passing the equality edge of the %s comparison" % kind))
-        elif okb in r2:
+        elif okb & set(r2):
             out.append(violated("C02.R3", key, t.where(), "a mismatch in the %s comparison can still reach Ok(())" % kind))
         else:
             # the mismatch edge must build a SafetyViolation
